@@ -8,6 +8,7 @@ import (
 	"math"
 	"math/rand"
 	"os"
+	"strings"
 	"sync"
 	"sync/atomic"
 	"time"
@@ -522,23 +523,41 @@ func (d Driver) Run(c *core.Ctx) error {
 	c.Assumptions = []string{"operands are lattice polygons and their affine images; the winding oracle (harness/internal/oracle) evaluates results at sample points that the spec proved to be off every input boundary",
 		"area laws are checked on the real outputs with tolerance 6.4e-5 * |det embedding| (snap grid 1e-8 * perimeter)"}
 	r := &runner{c: c}
-	// watchdog: an operation that does not return within 60 s is reported (replayed under Guard) and the run ends
+	// watchdog: an operation that does not return within 2 minutes is re-executed under a per-operation time limit;
+	// if that reproduces the non-termination it is reported and the run ends (the worker goroutine is lost). A slow
+	// but terminating scenario (machine load, GC) is left alone; a worker stuck for 20 minutes ends the run as a
+	// machinery failure.
 	stop := make(chan struct{})
 	go func() {
+		handled := map[*stamp]bool{}
 		for {
 			select {
 			case <-stop:
 				return
-			case <-time.After(3 * time.Second):
+			case <-time.After(5 * time.Second):
 			}
 			for i := range r.cur {
-				if st := r.cur[i].Load(); st != nil && time.Since(st.t) > 60*time.Second {
-					ms := exec(st.s, true)
-					c.Report(st.s, ms)
-					if len(ms) == 0 {
-						c.Broken("worker stuck for 60 s but the scenario terminates under replay")
-					}
+				st := r.cur[i].Load()
+				if st == nil {
+					continue
+				}
+				if time.Since(st.t) > 20*time.Minute {
+					c.Broken("worker stuck for 20 minutes on a scenario that terminates under replay")
 					os.Exit(c.Finish())
+				}
+				if time.Since(st.t) > 2*time.Minute && !handled[st] {
+					handled[st] = true
+					ms := exec(st.s, true)
+					hang := false
+					for _, m := range ms {
+						if strings.HasPrefix(m.Signature, "timeout") {
+							hang = true
+						}
+					}
+					if hang {
+						c.Report(st.s, ms)
+						os.Exit(c.Finish())
+					}
 				}
 			}
 		}
